@@ -150,6 +150,32 @@ pub fn generate(seed: u64, index: u64, thorough: bool) -> Scenario {
             }
             _ => {}
         }
+        // mis-shaped inputs: weights or observations that do not match the samples. build()
+        // has to answer with an error value (which one is C18's business), never a panic
+        if rng.chance(0.12) {
+            let n = sc.x.len();
+            let s = sc.y.len();
+            let l = match rng.below(7) {
+                0 => 0,
+                1 => 1,
+                2 => n.saturating_sub(1),
+                3 => n + 1,
+                4 => 2 * n,
+                5 => n * s,
+                _ => n * s + 1,
+            };
+            if rng.chance(0.6) {
+                let fill = sc.weights.as_ref().and_then(|w| w.first().copied()).unwrap_or(Fx(1.0));
+                let mut wv = sc.weights.clone().unwrap_or_default();
+                wv.resize(l, fill);
+                sc.weights = Some(wv);
+            } else {
+                for c in sc.y.iter_mut() {
+                    let fill = c.first().copied().unwrap_or(Fx(0.0));
+                    c.resize(l, fill);
+                }
+            }
+        }
         let mut poisoned = 0;
         if rng.chance(0.5) {
             poisoned += poison(&mut rng, &mut sc.x, p, w);
@@ -241,6 +267,13 @@ fn exec_t<T: Sc, F: Factory<T>>(sc: &Scenario) -> RunReport {
     if let Some(p) = &r.build_panic {
         rep.violate(sc, "PANIC", &format!("build@{}", panic_site(p)), p.clone());
     }
+    let shapes_ok = sc.y.iter().all(|c| c.len() == sc.n()) && sc.weights.as_ref().map(|w| w.len() == sc.n()).unwrap_or(true);
+    if !shapes_ok {
+        rep.probe("runs_with_mismatched_shapes");
+        if r.build.is_ok() {
+            rep.probe("mismatched_shapes_accepted_by_build");
+        }
+    }
     match &r.build {
         Ok(()) => rep.probe("build_ok"),
         Err(e) => {
@@ -265,7 +298,7 @@ fn exec_t<T: Sc, F: Factory<T>>(sc: &Scenario) -> RunReport {
                 rep.probe("state_rejected_cache_empty");
                 let alpha: Vec<T> = s.params.iter().map(|b| T::of_bits(*b)).collect();
                 let w = &r.world;
-                if alpha.len() == w.p() {
+                if alpha.len() == w.p() && w.w.as_ref().map(|v| v.len() == w.n()).unwrap_or(true) {
                     let pw = crate::refmath::phi_w::<T>(&w.spec, &w.x, w.w.as_ref(), &alpha);
                     if pw.iter().all(|v| v.f().is_finite()) && sc.faults.is_empty() {
                         // finite basis, no injected fault: the library rejected the decomposition
